@@ -444,7 +444,9 @@ def run(chk):
     order = {"support": 0, "corr": 1, "stat": 2}
     seen = set()
     for kind, what, replay in sorted(failures, key=lambda f: order[f[0]]):
-        key = (kind, what.split("`")[1].split()[1] if kind in ("support", "stat") and "`" in what else what[:60])
+        # one violation per distribution (the corpus scenario, the grid's support scan and the statistical tier usually all see it)
+        key = what.split("`")[1].split()[1] if kind in ("support", "stat") and "`" in what else (
+            "loaded_dice" if "loaded returned the index" in what else what[:60])
         if key in seen or len(chk.violations) >= 6:
             continue
         seen.add(key)
